@@ -1,11 +1,26 @@
 /-
   C11 — State resolution is order-independent and yields well-formed state.
-  (first instalment: the resolved state is a map — at most one event per (type, state_key);
-   the order-independence theorems are in progress, see DESIGN.md §5 C11)
+
+  The model (VModel/StateRes.lean) represents every Go map as an association list in first-insertion order and
+  ranges over it in that order; the Go code ranges over its maps in an order that changes from run to run.  The
+  theorems below show that the model's answer does not depend on those orders (nor on the order / duplication of
+  its inputs): so every run, on every server holding the same events, computes the same room state.
+
+  Hypotheses used (and only where needed):
+  * `Input.ids`       — within the supplied events the event ID identifies the event (Go compares events by ID;
+                        cf. `V.C09.Ids`: all events of one resolution have one room version);
+  * `Input.oneCreate` — the supplied events contain at most one create event (they belong to one room): the v12
+                        creator bonus in the power ordering reads "the" create event with a first-match search.
+  Proof files: VProofs/StateRes{Basic,Sort,State,Group,Split,Closure,KahnSim,KahnSim2,KahnTopo,MapEq,Stages,WF,Invariant}.lean.
 -/
 import VModel.StateRes
+import VProofs.StateResInvariant
+import VProofs.StateResKahnTopo2
+import VProofs.StateResV1g
 namespace V.C11
-open V V.StateRes
+open V V.StateRes List
+
+/-! ## First instalment (kept): the partial state is a map -/
 
 def KeysNodup (s : State) : Prop := (s.map (·.1)).Nodup
 
@@ -24,23 +39,8 @@ theorem set_keys (s : State) (t k : Bytes) (e : Event) :
   · rename_i h
     simp [h]
 
-theorem set_keysNodup (s : State) (t k : Bytes) (e : Event) (h : KeysNodup s) : KeysNodup (s.set t k e) := by
-  unfold KeysNodup at *
-  rw [set_keys]
-  split
-  · exact h
-  · rename_i hf
-    rw [List.nodup_append]
-    refine ⟨h, by simp, ?_⟩
-    intro a ha b hb
-    simp only [List.mem_singleton] at hb
-    subst hb
-    intro hab
-    subst hab
-    apply hf
-    obtain ⟨x, hx, hxk⟩ := List.mem_map.mp ha
-    rw [List.find?_isSome]
-    exact ⟨x, hx, by simp [hxk]⟩
+theorem set_keysNodup (s : State) (t k : Bytes) (e : Event) (h : KeysNodup s) : KeysNodup (s.set t k e) :=
+  State.set_nodup h t k e
 
 /-- **`applyEvents` keeps at most one event per (type, state_key).** -/
 theorem applyEvents_keysNodup (s : State) (evs : List Event) (h : KeysNodup s) : KeysNodup (applyEvents s evs) := by
@@ -68,5 +68,381 @@ theorem authAndApply_keysNodup (authMap : List Event) (rejected : List ID) (s : 
     · exact h
 
 example : KeysNodup ([] : State) := by simp [KeysNodup]
+
+/-! ## 1. The v2 / v2.1 result is well formed -/
+
+/-- The model's answer is the list of event IDs of the resolved state `finalState` (VProofs/StateResStages.lean:
+    the `let`s of `resolveV2New`, named). -/
+theorem result_eq_finalState (algo : Nat) (sets : List (List Event)) (auth : List Event) (rejected : List ID) :
+    (resolveV2New algo sets auth rejected).result = (finalState algo sets auth rejected).map (·.2.eventID) :=
+  resolveV2New_result algo sets auth rejected
+
+/-- **At most one event per (type, state_key).**  The resolved state has pairwise distinct slots, every entry sits in the
+    slot of its event, hence no two resolved events share (type, state_key). -/
+theorem result_unique_keys (algo : Nat) (sets : List (List Event)) (auth : List Event) (rejected : List ID) :
+    let s := finalState algo sets auth rejected
+    KeysNodup s ∧ (∀ x ∈ s, x.2.type = x.1.1 ∧ x.2.stateKey = some x.1.2) ∧
+    (s.map (·.2)).Pairwise (fun a b => ¬ (a.type = b.type ∧ a.stateKey = b.stateKey)) := by
+  intro s
+  have h := finalState_wf algo sets auth rejected
+  refine ⟨h.nodup, fun x hx => ?_, ?_⟩
+  · have := hasKey_iff.mp (h.slot x hx); exact ⟨this.2, this.1⟩
+  · have hn := h.nodup
+    rw [List.nodup_iff_pairwise_ne, List.pairwise_map] at hn
+    rw [List.pairwise_map]
+    have : (finalState algo sets auth rejected).Pairwise
+        (fun a b => a ∈ finalState algo sets auth rejected ∧ b ∈ finalState algo sets auth rejected ∧ a.1 ≠ b.1) := by
+      rw [List.pairwise_iff_forall_sublist] at hn ⊢
+      intro a b hab
+      exact ⟨hab.subset List.mem_cons_self, hab.subset (List.mem_cons_of_mem _ List.mem_cons_self), hn hab⟩
+    refine this.imp ?_
+    rintro a b ⟨ha, hb, hne⟩ ⟨h1, h2⟩
+    apply hne
+    have ka := hasKey_iff.mp (h.slot a ha)
+    have kb := hasKey_iff.mp (h.slot b hb)
+    refine Prod.ext (ka.2.symm.trans (h1.trans kb.2)) ?_
+    have := ka.1.symm.trans (h2.trans kb.1); simpa using this
+
+/-- **Only supplied events.** -/
+theorem result_subset_inputs (algo : Nat) (sets : List (List Event)) (auth : List Event) (rejected : List ID) :
+    ∀ id ∈ (resolveV2New algo sets auth rejected).result, ∃ e ∈ sets.flatten ++ auth, e.eventID = id := by
+  intro id hid
+  rw [result_eq_finalState] at hid
+  obtain ⟨x, hx, rfl⟩ := List.mem_map.mp hid
+  exact ⟨x.2, List.mem_append.mpr (mem_finalState hx), rfl⟩
+
+/-- An event is unconflicted iff it is the only supplied state event of its slot and occurs in every state set
+    (`countID` counts its occurrences over all state sets). -/
+theorem unconflicted_iff (sets : List (List Event)) (e : Event) :
+    e ∈ (splitConflictedUnconflicted false sets).2 ↔
+      e ∈ distinctStateEvents sets ∧ ((distinctStateEvents sets).filter (hasKey (keyOf e))).length = 1 ∧
+      countID sets e.eventID = sets.length := by
+  rw [mem_split_unconflicted]; simp [dse]
+
+/-- **Agreed keys are kept.**  For every key on which all state sets agree, the resolved state holds exactly that event in
+    that slot (and, slots being distinct, no other event for that key). -/
+theorem result_keeps_agreed (algo : Nat) (sets : List (List Event)) (auth : List Event) (rejected : List ID)
+    (u : Event) (hu : u ∈ (splitConflictedUnconflicted false sets).2) :
+    (finalState algo sets auth rejected).get u.type (u.stateKey.getD []) = some u ∧
+    u.eventID ∈ (resolveV2New algo sets auth rejected).result := by
+  have h := finalState_keeps_unconflicted algo sets auth rejected hu
+  refine ⟨State.get_eq_some_of_mem (finalState_wf algo sets auth rejected).nodup h, ?_⟩
+  rw [result_eq_finalState]
+  exact List.mem_map.mpr ⟨_, h, rfl⟩
+
+/-- **Equal state sets resolve to themselves.**  If all state sets are rearrangements of one duplicate-free set `S` of
+    state events with distinct (type, state_key), the result is exactly `S` (whatever auth events are supplied). -/
+theorem resolve_all_equal (algo : Nat) (S : List Event) (hS : IdNodup S) (hkeys : (S.map keyOf).Nodup)
+    (hst : ∀ e ∈ S, e.stateKey.isSome) (sets : List (List Event)) (hne : sets ≠ []) (h : ∀ s ∈ sets, s ~ S)
+    (auth : List Event) (rejected : List ID) :
+    (resolveV2New algo sets auth rejected).result ~ S.map (·.eventID) := by
+  rw [result_eq_finalState]
+  have := (finalState_all_equal_perm algo S hS hkeys hst sets hne h auth rejected).map (·.eventID)
+  rwa [List.map_map] at this
+
+/-! ## 3. Order independence of the stages and of the whole resolution -/
+
+/-- the supplied events are identified by their IDs and contain at most one create event -/
+structure Input (sets : List (List Event)) (auth : List Event) : Prop where
+  ids : IdsIn (sets.flatten ++ auth)
+  oneCreate : OneCreate (· ∈ sets.flatten ++ auth)
+
+theorem Input.setsU {sets : List (List Event)} {auth : List Event} :
+    ∀ s ∈ sets, ∀ x ∈ s, x ∈ sets.flatten ++ auth :=
+  fun s hs x hx => List.mem_append_left _ (List.mem_flatten.mpr ⟨s, hs, hx⟩)
+
+/-- permuting the state sets is a `SetsEquiv` -/
+theorem SetsEquiv.of_perm {a b : List (List Event)} (h : a ~ b) : SetsEquiv a b := by
+  obtain ⟨c, hc, he⟩ := SetsEquiv.refl b
+  exact ⟨c, h.trans hc, he⟩
+
+/-- permuting the events inside each state set is a `SetsEquiv` -/
+theorem SetsEquiv.of_eachPerm {a b : List (List Event)} (h : EachPerm a b) : SetsEquiv a b := ⟨a, Perm.refl a, h⟩
+
+/-- **The split into conflicted / unconflicted events is order independent.** -/
+theorem split_perm_invariant (v1 : Bool) {sets sets' : List (List Event)} (hU : IdsIn sets.flatten) (hs : SetsEquiv sets sets') :
+    (splitConflictedUnconflicted v1 sets).1 ~ (splitConflictedUnconflicted v1 sets').1 ∧
+    (splitConflictedUnconflicted v1 sets).2 ~ (splitConflictedUnconflicted v1 sets').2 :=
+  split_perm_invariant_perm hU v1 (fun s hs x hx => List.mem_flatten.mpr ⟨s, hs, hx⟩) hs
+
+/-- **The auth difference (v2) / auth difference + conflicted subgraph (v2.1) is order independent**: it depends only on
+    the sets involved (auth map up to lookups, conflicted events as a set, state sets up to rearrangement). -/
+theorem authDifference_perm_invariant {U : Event → Prop} (hU : EvId U) (algo : Nat) {am am' c c' : List Event}
+    {sets sets' : List (List Event)} (hsets : ∀ s ∈ sets, ∀ x ∈ s, U x) (hsets' : ∀ s ∈ sets', ∀ x ∈ s, U x)
+    (ham : ∀ x ∈ am, U x) (ham' : ∀ x ∈ am', U x) (hcU : ∀ x ∈ c, U x) (hcU' : ∀ x ∈ c', U x)
+    (hm : MapEq am am') (hc : SameSet c c') (hs : SetsSim sets sets') :
+    SameSet (authDifferenceNew algo am c sets) (authDifferenceNew algo am' c' sets') :=
+  authDifferenceNew_congr hU algo hsets hsets' ham ham' hcU hcU' hm hc hs
+
+/-- **The full control set is order independent** (closure through the conflicted map from the control roots). -/
+theorem controlSet_perm_invariant {cm cm' roots roots' : List Event} (hm : MapEq cm cm') (hr : SameSet roots roots') :
+    SameSet (controlIDsOf cm roots) (controlIDsOf cm' roots') := by
+  unfold controlIDsOf
+  rw [controlClosure_mapEq hm, hm.1]
+  apply controlClosure_sameSet _ _ hr
+  intro id
+  rw [eventMap_ids, eventMap_ids]
+  exact (hr.map _) id
+
+/-- **Every stage of `resolveV2New` is order independent**: for state sets permuted (and permuted inside) and an auth list
+    with the same events (reordered, entries repeated), the conflicted / unconflicted / auth-difference / control / other
+    sets are the same sets, the power ordering and the mainline ordering are the same lists, and the results are
+    permutations of each other. -/
+theorem stages_perm_invariant (algo : Nat) {sets sets' : List (List Event)} {auth auth' : List Event}
+    (hin : Input sets auth) (hs : SetsEquiv sets sets') (ha : SameSet auth auth') (rejected : List ID) :
+    let r := resolveV2New algo sets auth rejected
+    let r' := resolveV2New algo sets' auth' rejected
+    SameSet r.conflicted r'.conflicted ∧ SameSet r.unconflicted r'.unconflicted ∧ SameSet r.authDiff r'.authDiff ∧
+    SameSet r.control r'.control ∧ SameSet r.others r'.others ∧
+    r.controlOrder = r'.controlOrder ∧ r.othersOrder = r'.othersOrder ∧ r.result ~ r'.result :=
+  V.StateRes.stages_perm_invariant hin.ids hin.oneCreate algo Input.setsU (fun x hx => List.mem_append_right _ hx) hs ha rejected
+
+/-- **C11, main theorem (v2 and v2.1).**  The set of events returned by state resolution is the same for every ordering of
+    the state sets, of the events inside each set, of the auth events, and with auth events listed more than once. -/
+theorem resolve_perm_invariant (algo : Nat) {sets sets' : List (List Event)} {auth auth' : List Event}
+    (hin : Input sets auth) (hs : SetsEquiv sets sets') (ha : SameSet auth auth') (rejected : List ID) :
+    (resolveV2New algo sets' auth' rejected).result ~ (resolveV2New algo sets auth rejected).result :=
+  (stages_perm_invariant algo hin hs ha rejected).2.2.2.2.2.2.2.symm
+
+/-- in particular the two answers hold the same event IDs -/
+theorem resolve_same_ids (algo : Nat) {sets sets' : List (List Event)} {auth auth' : List Event}
+    (hin : Input sets auth) (hs : SetsEquiv sets sets') (ha : SameSet auth auth') (rejected : List ID) (id : ID) :
+    id ∈ (resolveV2New algo sets' auth' rejected).result ↔ id ∈ (resolveV2New algo sets auth rejected).result :=
+  (resolve_perm_invariant algo hin hs ha rejected).mem_iff
+
+/-! ## 2. The orderings
+
+  `kahn lt parents nodes` is Kahn's algorithm exactly as the library writes it (generic in the comparator and in the parent
+  relation; `reverseTopoAuth` uses `powerLt` on (sender power desc, timestamp, event ID) with `auth_events`, `reverseTopoPrev` uses
+  `otherLt` with `prev_events`); `mainlineOrdering` is a sort by `otherLt`.  `kNodes nodes` is the input with repeated event
+  IDs dropped (first occurrence kept): `(kNodes (l.map mk)).map (·.ev) = eventMapFromEvents l`. -/
+
+/-- the comparators are strict total orders on their keys (the key ends with the event ID) -/
+theorem powerLt_strictTotal : StrictTotal powerLt := V.StateRes.powerLt_strictTotal
+theorem otherLt_strictTotal : StrictTotal otherLt := V.StateRes.otherLt_strictTotal
+
+/-- **Kahn: permutation of the distinct input events** — no acyclicity needed (strays are appended, the fuel suffices). -/
+theorem kahn_perm {κ : Type} (lt : κ → κ → Bool) (parents : Event → List ID) (nodes : List (KNode κ)) :
+    kahn lt parents nodes ~ (kNodes nodes).map (·.ev) := V.StateRes.kahn_perm lt parents nodes
+
+/-- **Kahn: topological for acyclic input** (`KAcyclic`: some rank strictly increases from every parent present in the input
+    to its child): no event comes before one of its parents, there are no strays … -/
+theorem kahn_topological {κ : Type} (lt : κ → κ → Bool) (parents : Event → List ID) (nodes : List (KNode κ))
+    (hac : KAcyclic parents nodes) :
+    (kahn lt parents nodes).Pairwise (fun a b => b.eventID ∉ parents a) := V.StateRes.kahn_topological lt parents nodes hac
+
+/-- … and every event comes after all of its ancestors present in the input. -/
+theorem kahn_topological_ancestors {κ : Type} (lt : κ → κ → Bool) (parents : Event → List ID) (nodes : List (KNode κ))
+    (hac : KAcyclic parents nodes) :
+    (kahn lt parents nodes).Pairwise (fun a b => ¬ Relation.TransGen (ParentIn parents (kahn lt parents nodes)) b a) :=
+  V.StateRes.kahn_topological_ancestors lt parents nodes hac
+
+/-- **Kahn: the output is a function of the SET of input nodes** (any order, any duplication), for a strict total order on
+    keys that determine the event ID. -/
+theorem kahn_input_order_irrelevant {κ : Type} (lt : κ → κ → Bool) (hlt : StrictTotal lt) (parents : Event → List ID)
+    (n1 n2 : List (KNode κ))
+    (hids : ∀ a ∈ n1 ++ n2, ∀ b ∈ n1 ++ n2, a.ev.eventID = b.ev.eventID → a = b)
+    (hkey : ∀ a ∈ n1, ∀ b ∈ n1, a.key = b.key → a.ev.eventID = b.ev.eventID)
+    (hset : SameSet n1 n2) : kahn lt parents n1 = kahn lt parents n2 :=
+  V.StateRes.kahn_input_order_irrelevant lt hlt parents n1 n2 hids hkey hset
+
+/-- acyclicity of a list of events w.r.t. a parent relation, by a rank function -/
+def Acyclic (parents : Event → List ID) (l : List Event) : Prop :=
+  ∃ rk : ID → Nat, ∀ e ∈ l, ∀ p ∈ parents e, p ∈ l.map (·.eventID) → rk p < rk e.eventID
+
+theorem reverseTopoAuth_perm (am : List Event) (ce : Option Event) (l : List Event) :
+    reverseTopoAuth am ce l ~ eventMapFromEvents l := V.StateRes.reverseTopoAuth_perm am ce l
+
+theorem reverseTopoAuth_topological (am : List Event) (ce : Option Event) (l : List Event)
+    (hac : Acyclic (fun e => e.authEventIDs) l) :
+    (reverseTopoAuth am ce l).Pairwise
+      (fun a b => ¬ Relation.TransGen (ParentIn (fun e => e.authEventIDs) (reverseTopoAuth am ce l)) b a) :=
+  V.StateRes.reverseTopoAuth_topological_ancestors am ce l hac
+
+theorem reverseTopoAuth_input_order_irrelevant (am : List Event) (ce : Option Event) {l1 l2 : List Event}
+    (hU : IdsIn (l1 ++ l2)) (h : SameSet l1 l2) : reverseTopoAuth am ce l1 = reverseTopoAuth am ce l2 :=
+  V.StateRes.reverseTopoAuth_input_order_irrelevant am ce hU h
+
+theorem reverseTopoPrev_perm (l : List Event) : reverseTopoPrev l ~ eventMapFromEvents l := V.StateRes.reverseTopoPrev_perm l
+
+theorem reverseTopoPrev_topological (l : List Event) (hac : Acyclic (fun e => e.prevEventIDs) l) :
+    (reverseTopoPrev l).Pairwise
+      (fun a b => ¬ Relation.TransGen (ParentIn (fun e => e.prevEventIDs) (reverseTopoPrev l)) b a) :=
+  V.StateRes.reverseTopoPrev_topological_ancestors l hac
+
+theorem reverseTopoPrev_input_order_irrelevant {l1 l2 : List Event} (hU : IdsIn (l1 ++ l2)) (h : SameSet l1 l2) :
+    reverseTopoPrev l1 = reverseTopoPrev l2 := V.StateRes.reverseTopoPrev_input_order_irrelevant hU h
+
+theorem mainlineOrdering_perm (am ml evs : List Event) : mainlineOrdering am ml evs ~ evs :=
+  V.StateRes.mainlineOrdering_perm am ml evs
+
+theorem mainlineOrdering_input_order_irrelevant (am ml : List Event) {l1 l2 : List Event} (hp : l1 ~ l2) (hn : IdNodup l1) :
+    mainlineOrdering am ml l1 = mainlineOrdering am ml l2 := V.StateRes.mainlineOrdering_input_order_irrelevant am ml hp hn
+
+/-- `ReverseTopologicalOrdering(input, TopologicalOrderByAuthEvents)` as the public entry point runs it (no auth map; the
+    create event is looked up in the input) — what VDriver/Topo.lean ties to the code -/
+def publicTopoAuth (input : List Event) : List Event := reverseTopoAuth [] (getCreateEvent input) input
+
+theorem publicTopoAuth_perm (l : List Event) : publicTopoAuth l ~ eventMapFromEvents l := reverseTopoAuth_perm _ _ l
+
+theorem publicTopoAuth_topological (l : List Event) (hac : Acyclic (fun e => e.authEventIDs) l) :
+    (publicTopoAuth l).Pairwise (fun a b => ¬ Relation.TransGen (ParentIn (fun e => e.authEventIDs) (publicTopoAuth l)) b a) :=
+  reverseTopoAuth_topological _ _ l hac
+
+theorem publicTopoAuth_input_order_irrelevant {l1 l2 : List Event} (hU : IdsIn (l1 ++ l2)) (hC : OneCreate (· ∈ l1 ++ l2))
+    (h : SameSet l1 l2) : publicTopoAuth l1 = publicTopoAuth l2 := by
+  unfold publicTopoAuth
+  rw [getCreateEvent_congr hC (fun x hx => List.mem_append_left _ hx) (fun x hx => List.mem_append_right _ hx) h]
+  exact reverseTopoAuth_input_order_irrelevant _ _ hU h
+
+/-- `LineariseStateResponse`: the auth events and the state events are put into a map keyed by event ID and the map's values
+    — `all`, in whatever order the map yields them — are ordered by auth events.  Any two runs see arrangements `all`,
+    `all'` of the same events and return the same list: a permutation of the distinct events, ancestors first. -/
+theorem linearise_deterministic {all all' : List Event} (hU : IdsIn (all ++ all')) (hC : OneCreate (· ∈ all ++ all'))
+    (h : SameSet all all') (hac : Acyclic (fun e => e.authEventIDs) all) :
+    publicTopoAuth all = publicTopoAuth all' ∧ publicTopoAuth all ~ eventMapFromEvents all ∧
+    (publicTopoAuth all).Pairwise (fun a b => ¬ Relation.TransGen (ParentIn (fun e => e.authEventIDs) (publicTopoAuth all)) b a) :=
+  ⟨publicTopoAuth_input_order_irrelevant hU hC h, publicTopoAuth_perm all, publicTopoAuth_topological all hac⟩
+
+/-! ## 4. Version 1 (`ResolveStateConflicts`; `ResolveConflictsNew` for room versions with algorithm 1)
+
+  Precondition of the version-1 resolver (its documented input: "the unconflicted auth events needed for auth checks"):
+  (P1) supplied auth events occupying one slot are equal; (P2) no supplied auth event occupies the slot of a conflicted event;
+  (P3) the candidates of one slot have distinct (depth, SHA-1 of the event ID) — `sha` is an arbitrary function of the ID.
+  Without (P2) the result DOES depend on the order of the conflicted events (see the report: a resolved member block clears its
+  slot, so a sibling block resolved later no longer sees the supplied auth event of that slot). -/
+
+theorem v1_result_unique_keys (sha : ID → Bytes) (conflicted auth : List Event) :
+    ((resolveV1 sha conflicted auth).map keyOf).Nodup := V.StateRes.v1_result_unique_keys sha conflicted auth
+
+theorem v1_result_subset_inputs {sha : ID → Bytes} {conflicted auth : List Event} {e : Event}
+    (h : e ∈ resolveV1 sha conflicted auth) : e ∈ conflicted ∧ e.stateKey.isSome := V.StateRes.v1_result_subset_inputs h
+
+/-- exactly one resolved event per slot occurring among the conflicted state events -/
+theorem v1_result_keys_complete (sha : ID → Bytes) (conflicted auth : List Event) (K : Bytes × Bytes) :
+    K ∈ (resolveV1 sha conflicted auth).map keyOf ↔ ∃ e ∈ conflicted, e.stateKey.isSome ∧ keyOf e = K :=
+  V.StateRes.v1_result_keys_complete sha conflicted auth K
+
+/-- **Sibling blocks are independent** (the deferral of registration in `resolveAndAddAuthBlocks`): one call on two
+    arrangements of the same blocks, against well-formed resolver states with equal lookups in which the blocks' slots are
+    empty, yields the same winners (up to order) and again states with equal lookups. -/
+theorem blocks_order_irrelevant (sha : ID → Bytes) (valid : Bool) {s s' : V1State} {blocks blocks' : List (List Event)}
+    (hw : s.WF) (hw' : s'.WF) (hsim : s.Sim s') (heq : SetsEquiv blocks blocks') (hb : BlocksEmpty s blocks)
+    (hdist : blocks.Pairwise (fun b1 b2 => ∀ e1 ∈ b1, ∀ e2 ∈ b2, keyOf e1 ≠ keyOf e2))
+    (hinj : ∀ b ∈ blocks, ∀ x ∈ b, ∀ y ∈ b, x.depth = y.depth → sha x.eventID = sha y.eventID → x = y) :
+    (resolveAndAddAuthBlocks sha valid s blocks).2 ~ (resolveAndAddAuthBlocks sha valid s' blocks').2 ∧
+      (resolveAndAddAuthBlocks sha valid s blocks).1.Sim (resolveAndAddAuthBlocks sha valid s' blocks').1 :=
+  let h := V.StateRes.blocks_order_irrelevant sha valid hw hw' hsim heq hb hdist hinj
+  ⟨h.1, h.2.1⟩
+
+/-- **Version 1 is order independent** under its documented precondition. -/
+theorem v1_perm_invariant (sha : ID → Bytes) {conflicted conflicted' auth auth' : List Event}
+    (hc : conflicted ~ conflicted') (ha : SameSet auth auth')
+    (P1 : ∀ a ∈ auth, ∀ b ∈ auth, a.stateKey.isSome → keyOf a = keyOf b → b.stateKey.isSome → a = b)
+    (P2 : ∀ a ∈ auth, ∀ c ∈ conflicted, a.stateKey.isSome → c.stateKey.isSome → keyOf a ≠ keyOf c)
+    (P3 : ∀ a ∈ conflicted, ∀ b ∈ conflicted, a.stateKey.isSome → b.stateKey.isSome → keyOf a = keyOf b →
+      a.depth = b.depth → sha a.eventID = sha b.eventID → a = b) :
+    resolveV1 sha conflicted auth ~ resolveV1 sha conflicted' auth' :=
+  V.StateRes.v1_perm_invariant sha hc ha P1 P2 P3
+
+/-- the version-1 precondition, for an input of `ResolveConflictsNew` -/
+structure V1Input (sha : ID → Bytes) (sets : List (List Event)) (auth : List Event) : Prop where
+  P1 : ∀ a ∈ auth, ∀ b ∈ auth, a.stateKey.isSome → keyOf a = keyOf b → b.stateKey.isSome → a = b
+  P2 : ∀ a ∈ auth, ∀ c ∈ (splitConflictedUnconflicted true sets).1, a.stateKey.isSome → c.stateKey.isSome → keyOf a ≠ keyOf c
+  P3 : ∀ a ∈ (splitConflictedUnconflicted true sets).1, ∀ b ∈ (splitConflictedUnconflicted true sets).1,
+      a.stateKey.isSome → b.stateKey.isSome → keyOf a = keyOf b → a.depth = b.depth → sha a.eventID = sha b.eventID → a = b
+
+/-- the v1 answer of the entry point: unique keys, only supplied state events, one event per supplied slot -/
+theorem v1_entry_well_formed (sha : ID → Bytes) (sets : List (List Event)) (auth : List Event) :
+    ((v1Resolved sha sets auth).map keyOf).Nodup ∧ (∀ e ∈ v1Resolved sha sets auth, e ∈ sets.flatten ∧ e.stateKey.isSome) :=
+  ⟨v1Resolved_unique_keys sha sets auth, fun _ h => v1Resolved_subset_inputs h⟩
+
+/-! ## The entry point `ResolveConflictsNew`, all three algorithms -/
+
+/-- both answers are errors, or both are results that are permutations of each other -/
+def SameAnswer : Option (List ID) → Option (List ID) → Prop
+  | some l, some l' => l ~ l'
+  | none, none => True
+  | _, _ => False
+
+/-- **C11 for the entry point**: `ResolveConflictsNew` gives the same set of events for every presentation of its input, for
+    every room version (algorithm 1 under the version-1 precondition, algorithms 2 and 2.1 unconditionally). -/
+theorem resolveConflictsNew_perm_invariant (sha : ID → Bytes) (ver : Bytes) {sets sets' : List (List Event)}
+    {auth auth' : List Event} (hin : Input sets auth) (hs : SetsEquiv sets sets') (ha : SameSet auth auth')
+    (hv1 : ∀ row, versionRow? ver = some row → row.stateResAlgorithm = 1 → V1Input sha sets auth) (rejected : List ID) :
+    SameAnswer (resolveConflictsNew sha ver sets auth rejected) (resolveConflictsNew sha ver sets' auth' rejected) := by
+  cases hv : versionRow? ver with
+  | none => simp [resolveConflictsNew, hv, SameAnswer]
+  | some row =>
+    by_cases h1 : row.stateResAlgorithm = 1
+    · obtain ⟨P1, P2, P3⟩ := hv1 row hv h1
+      obtain ⟨l, l', e1, e2, hp⟩ := resolveConflictsNew_v1_perm_invariant sha ver hv h1 hin.ids rejected rejected
+        Input.setsU hs ha P1 P2 P3
+      rw [e1, e2]; exact hp
+    · have h1' : (row.stateResAlgorithm == 1) = false := by simpa using h1
+      unfold resolveConflictsNew
+      simp only [hv, h1', Bool.false_eq_true, if_false]
+      split
+      · exact (resolve_perm_invariant row.stateResAlgorithm hin hs ha rejected).symm
+      · trivial
+
+/-! ## Non-vacuity of the hypotheses: a concrete, non-trivial instance -/
+
+section Examples
+open V.Json
+
+private def mkEv (id ty sk : Bytes) (auth : List Bytes) : Event :=
+  { ver := b!"10", eventID := id,
+    obj := [(b!"type", .str ty), (b!"state_key", .str sk), (b!"auth_events", .arr (auth.map .str))] }
+
+private def eCreate := mkEv b!"$create" b!"m.room.create" [] []
+private def eA := mkEv b!"$a" b!"m.room.topic" [] [b!"$create"]
+private def eB := mkEv b!"$b" b!"m.room.topic" [] [b!"$create", b!"$a"]
+private def eN := mkEv b!"$n" b!"m.room.name" [] [b!"$create"]
+
+private theorem ex_idNodup : IdNodup [eCreate, eA, eB, eN] := by unfold IdNodup; decide
+
+/-- two state sets that disagree on the topic, auth events listed with a repetition: the hypotheses of
+    `resolve_perm_invariant` hold -/
+example : Input [[eCreate, eA, eN], [eCreate, eB, eN]] [eCreate, eA, eCreate] := by
+  constructor
+  · refine ex_idNodup.idsIn.mono ?_
+    intro x hx; revert hx; simp only [List.flatten_cons, List.flatten_nil, List.cons_append, List.nil_append, List.append_nil,
+      List.mem_cons, List.not_mem_nil, or_false]
+    rintro (h | h | h | h | h | h | h | h | h) <;> simp [h]
+  · intro x y hx hy hxc hyc
+    have key : ∀ z, z ∈ [[eCreate, eA, eN], [eCreate, eB, eN]].flatten ++ [eCreate, eA, eCreate] → z.isCreate = true → z = eCreate := by
+      intro z hz hzc
+      simp only [List.flatten_cons, List.flatten_nil, List.cons_append, List.nil_append, List.append_nil,
+        List.mem_cons, List.not_mem_nil, or_false] at hz
+      rcases hz with h | h | h | h | h | h | h | h | h <;> subst h <;> first | rfl | (exact absurd hzc (by decide))
+    rw [key x hx hxc, key y hy hyc]
+
+example : SetsEquiv [[eCreate, eA, eN], [eCreate, eB, eN]] [[eN, eB, eCreate], [eA, eCreate, eN]] := by
+  refine ⟨[[eCreate, eB, eN], [eCreate, eA, eN]], Perm.swap _ _ _, .cons ?_ (.cons ?_ .nil)⟩
+  · exact (Perm.swap _ _ _).trans ((Perm.swap _ _ _).cons _ |>.trans (Perm.swap _ _ _))
+  · exact Perm.swap _ _ _
+
+example : SameSet [eCreate, eA, eCreate] [eA, eCreate] := by
+  intro x; simp only [List.mem_cons, List.not_mem_nil, or_false]
+  constructor
+  · rintro (h | h | h) <;> simp [h]
+  · rintro (h | h) <;> simp [h]
+
+/-- the DAG create ← a ← b (and create ← n) is acyclic: rank = length of the longest chain below; the input lists `b` twice.
+    (The parent function is spelled out: `Event.authEventIDs` consults the room-version table through `String.toUTF8`,
+    which the kernel does not evaluate.) -/
+example : Acyclic (fun e => if e.eventID = b!"$b" then [b!"$create", b!"$a"] else if e.eventID = b!"$create" then [] else [b!"$create"])
+    [eB, eN, eA, eCreate, eB] := by
+  refine ⟨fun id => if id = b!"$create" then 0 else if id = b!"$a" then 1 else 2, ?_⟩
+  intro e he
+  simp only [List.mem_cons, List.not_mem_nil, or_false] at he
+  rcases he with h | h | h | h | h <;> subst h <;> decide
+
+/-- equal state sets: hypotheses of `resolve_all_equal` -/
+example : IdNodup [eCreate, eA, eN] ∧ ([eCreate, eA, eN].map keyOf).Nodup ∧ (∀ e ∈ [eCreate, eA, eN], e.stateKey.isSome) := by
+  refine ⟨by unfold IdNodup; decide, by decide, by decide⟩
+
+end Examples
 
 end V.C11
